@@ -146,9 +146,8 @@ func registerIntrinsics(p *Program) {
 	I[verifPkg+".String"] = func(ex *Exec, fr *frame, fn *ssa.Function, a []Value) Value {
 		label := constStr(a[0], "verif.String label")
 		max := constInt(a[1], "verif.String maxLen")
-		v := ex.Fresh("in!"+label, SStr)
-		ex.declareInput(v, v.S[3:])
-		ex.addPC(Le(StrLen(v), IntC(max)))
+		v := ex.Fresh(fmt.Sprintf("in!%s!max%d", label, max), SStr)
+		ex.declareInput(v, label+v.S[strings.LastIndexByte(v.S, '#'):])
 		return v
 	}
 	I[verifPkg+".StringN"] = func(ex *Exec, fr *frame, fn *ssa.Function, a []Value) Value {
@@ -268,6 +267,9 @@ func registerIntrinsics(p *Program) {
 	I[verifPkg+".Lt"] = func(ex *Exec, fr *frame, fn *ssa.Function, a []Value) Value { return Lt(tstr(a[0]), tstr(a[1])) }
 	I[verifPkg+".Contains"] = func(ex *Exec, fr *frame, fn *ssa.Function, a []Value) Value {
 		return StrContains(tstr(a[0]), tstr(a[1]))
+	}
+	I[verifPkg+".AllBytesIn"] = func(ex *Exec, fr *frame, fn *ssa.Function, a []Value) Value {
+		return StrAllIn(tstr(a[0]), constStr(a[1], "AllBytesIn classes"))
 	}
 	I[verifPkg+".HasPrefix"] = func(ex *Exec, fr *frame, fn *ssa.Function, a []Value) Value {
 		return StrPrefixOf(tstr(a[1]), tstr(a[0]))
@@ -511,6 +513,8 @@ func registerIntrinsics(p *Program) {
 	registerReflect(p)
 	registerLowLevel(p)
 	registerThirdParty(p)
+	registerRegex(p)
+	registerTemplate(p)
 	registerGoStubs(p)
 }
 
